@@ -528,7 +528,7 @@ def impl_wvti(tmp, dom, tags, calls, saveto, overwrite, scale):
     sigs = [pm.Signal(t) for t in tags]
     mod = pm.WriteToVTI(sigs, domain=d, saveto=os.path.join(tmp.path, saveto), overwrite=overwrite, scale=scale)
     out = []
-    inplace = (len(tags) + len(calls) + nelx) % 2 == 0
+    inplace = bool(overwrite) or (len(tags) + len(calls) + nelx) % 3 != 0
     for states in calls:
         for s, st in zip(sigs, states):
             cur = s.state
